@@ -58,8 +58,9 @@ theorem logicalOver_spec (rec : Rec) (s : Shape) (k : CKind) (path : List PathEn
     simp only [hm]
     split <;> simp_all
 
-theorem mkResult_owner (s : Shape) (k : CKind) (f : Term) (v p c : Option Term) (d : List Result) :
-    (mkResult s k f v p c d).shape = s.node ∧ (mkResult s k f v p c d).severity = s.severity := by
+theorem mkResult_owner (s : Shape) (k : CKind) (f : Term) (v p c : Option Term) (d : List Result) (src : Option Term)
+    (m : Option (List Term)) :
+    (mkResult s k f v p c d src m).shape = s.node ∧ (mkResult s k f v p c d src m).severity = s.severity := by
   simp [mkResult, Result.shape, Result.severity]
 
 end Pyshacl
